@@ -227,6 +227,93 @@ theorem deniedKey_self {s : Schema} (hk : KeysDistinct s) (rc ru : Bool) {f : Fi
       subst this; simp [hd]
     · simp [hgk]
 
+/-! ### statements without a schema (`stmt.Schema == nil`) -/
+
+/-- with a schema the `Option` version IS `selectAndOmit` -/
+theorem selectAndOmitO_some (s : Schema) (sel om : List Col) (rc ru : Bool) :
+    selectAndOmitO (some s) sel om rc ru = selectAndOmit s sel om rc ru := rfl
+
+/-- the keys named by a Select / Omit list, schema known or not -/
+def keysOfO (o : Option Schema) (cols : List Col) : List Col := cols.flatMap (resolveO o)
+
+theorem keysOfO_some (s : Schema) (cols : List Col) : keysOfO (some s) cols = keysOf s cols := rfl
+
+theorem keysOfO_none (cols : List Col) : keysOfO none cols = cols := by
+  induction cols with
+  | nil => rfl
+  | cons c t ih =>
+    have : keysOfO none (c :: t) = c :: keysOfO none t := by simp [keysOfO, resolveO]
+    rw [this, ih]
+
+theorem fold_processO_none_lookup (v : Bool) (cols : List Col) (st : Results × Bool) (c : Col) :
+    (cols.foldl (fun st col => processColumnO none st col v) st).1.lookup c =
+      if c ∈ cols then some v else st.1.lookup c := by
+  induction cols generalizing st with
+  | nil => simp
+  | cons col t ih =>
+    simp only [List.foldl_cons]
+    rw [ih]
+    simp only [processColumnO, List.lookup_cons, List.mem_cons]
+    by_cases h1 : c ∈ t
+    · simp [h1]
+    · by_cases h2 : c = col
+      · subst h2; simp [h1]
+      · have : (c == col) = false := by simpa using h2
+        simp [h1, h2, this]
+
+theorem fold_processO_none_flag (v : Bool) (cols : List Col) (st : Results × Bool) :
+    (cols.foldl (fun st col => processColumnO none st col v) st).2 = st.2 := by
+  induction cols generalizing st with
+  | nil => rfl
+  | cons col t ih => simp only [List.foldl_cons]; rw [ih]; rfl
+
+/-- CLOSED FORM without schema: the names are taken literally; omitted ⇒ `false`, else selected ⇒ `true` -/
+theorem selectAndOmitO_none_lookup (sel om : List Col) (rc ru : Bool) (c : Col) :
+    (selectAndOmitO none sel om rc ru).1.lookup c =
+      if c ∈ om then some false else if c ∈ sel then some true else none := by
+  simp only [selectAndOmitO, fold_processO_none_lookup]
+  simp
+
+/-- without schema ANY non-empty Select list restricts (there is no `*` arm that could lift the restriction) -/
+theorem selectAndOmitO_none_restricted (sel om : List Col) (rc ru : Bool) :
+    (selectAndOmitO none sel om rc ru).2 = !sel.isEmpty := by
+  simp only [selectAndOmitO, fold_processO_none_flag]
+  simp
+
+theorem allowedO_none_spec (sel om : List Col) (rc ru : Bool) (c : Col) :
+    allowed (selectAndOmitO none sel om rc ru) c = (!decide (c ∈ om) && (decide (c ∈ sel) || sel.isEmpty)) := by
+  unfold allowed
+  rw [selectAndOmitO_none_lookup, selectAndOmitO_none_restricted]
+  by_cases h1 : c ∈ om
+  · simp [h1]
+  · by_cases h2 : c ∈ sel <;> simp [h1, h2]
+
+/-- under a restricting Select `allowed` means "explicitly selected" -/
+theorem allowed_restricted {sel : Results × Bool} {c : Col} (h : allowed sel c = true) (hr : sel.2 = true) :
+    sel.1.lookup c = some true := by
+  unfold allowed at h
+  cases hl : sel.1.lookup c with
+  | none => rw [hl] at h; simp [hr] at h
+  | some v => rw [hl] at h; simp only at h; rw [h]
+
+theorem lookUpField_mem {s : Schema} {n : Col} {f : FieldSpec} (h : s.lookUpField n = some f) : f ∈ s.fields := by
+  unfold Schema.lookUpField at h
+  cases hb : s.byDBName n with
+  | some g => rw [hb] at h; injection h with h; subst h; exact (byDBName_some hb).1
+  | none => rw [hb] at h; exact List.mem_of_find?_eq_some h
+
+/-- a key mapped to `true` by `SelectAndOmitColumns` is named by the Select list -/
+theorem lookup_true_selected {s : Schema} {sel om : List Col} {rc ru : Bool} {c : Col}
+    (h : (selectAndOmit s sel om rc ru).1.lookup c = some true) : c ∈ keysOf s sel ∧ c ∉ keysOf s om := by
+  rw [selectAndOmit_lookup] at h
+  by_cases h1 : deniedKey s rc ru c = true
+  · simp [h1] at h
+  · by_cases h2 : c ∈ keysOf s om
+    · simp [h1, h2] at h
+    · by_cases h3 : c ∈ keysOf s sel
+      · exact ⟨h3, h2⟩
+      · simp [h1, h2, h3] at h
+
 theorem filterMap_if_eq {α β : Type} (l : List α) (p : α → Bool) (h : α → β) :
     l.filterMap (fun a => if p a then some (h a) else none) = (l.filter p).map h := by
   induction l with
